@@ -19,7 +19,8 @@ const char *C01_CLASSES[] = {"launch-count", "not-all-terminated", "done-count",
                              "leftover", "terminated-twice", "unknown-packet",
                              "packet-duplicated", "packet-after-termination",
                              "termination-cause", "task-nesting", "launch",
-                             "buffer-overflow", "nontermination", "packet-never-ends", nullptr};
+                             "buffer-overflow", "nontermination", "packet-never-ends", "lock-not-held",
+                             "source-buffer-shared", nullptr};
 const char *C12_CLASSES[] = {"crash", "abort", "sanitizer", "hang", "bad-exit",
                              "missing-output", "uninitialised-dependent",
                              nullptr};
